@@ -18,6 +18,7 @@ import dns.rdata
 import dns.rdataclass
 import dns.rdataset
 import dns.rdatatype
+import dns.rrset
 import dns.zone
 
 from harness.core import Ctx, VERIF, enc_labels, dec_labels
@@ -246,6 +247,18 @@ class _Abort(Exception):
     pass
 
 
+class _HardAbort(BaseException):
+    """a non-library, non-Exception way out of a `with` block (like KeyboardInterrupt)"""
+
+
+def _text_safe(name):
+    return all(l == b"" or all(48 <= c <= 57 or 65 <= c <= 90 or 97 <= c <= 122 for c in l) for l in name.labels)
+
+
+def _as_text(name):
+    return "@" if len(name.labels) == 0 else name.to_text()
+
+
 def api_view(version, apex_key):
     """what the public predicates say, per node: must be the flag bits (Node.is_origin / is_delegation / is_glue /
     is_origin_or_glue), and the zone-level iteration must be the version's order"""
@@ -270,7 +283,9 @@ def evaluate(case):
     load = case.get("load")
     quiet = bool(case.get("quiet"))
     cls = dns.rdataclass.CH if case.get("cls") == "CH" else dns.rdataclass.IN
-    zone = None if load else dns.btreezone.Zone(origin, rdclass=cls, relativize=rel)
+    # the origin may be given as text as well
+    origin_arg = origin.to_text() if len(case["items"]) % 2 and _text_safe(origin) else origin
+    zone = None if load else dns.btreezone.Zone(origin_arg, rdclass=cls, relativize=rel)
     held = []           # (version object, snapshot at commit): committed versions must never change afterwards
     out, spec_out, fails = [], [], []
     marks = []          # per transaction end / query: does the property hold there? (for the guard implication)
@@ -374,10 +389,11 @@ def evaluate(case):
                 txn.rollback()
             else:
                 # the other way a transaction is abandoned: an exception leaving the `with` block
+                exc = _HardAbort if len(out) % 4 == 0 else _Abort
                 try:
                     with txn:
-                        raise _Abort()
-                except _Abort:
+                        raise exc()
+                except exc:
                     pass
         except BaseException as e:  # pragma: no cover
             out.append("FOREIGN:" + type(e).__name__)
@@ -540,24 +556,63 @@ def evaluate(case):
         pre_sp = spec_of(txn.version) if not (tainted or quiet) else None
         ty = cov = None
         try:
+            # the same operation reaches the version through different public call forms (Name / str owner, rdataset /
+            # (ttl, rdata) / RRset, type as enum / mnemonic / int, delete / delete_exact); the form is picked from the
+            # item's position so that a history replays identically
+            route = (stats["ops"] * 7 + len(item)) % 5
+            if route and route % 2 == 0 and stats["ops"] % 3 == 0 and not quiet:
+                # hostile calls first: they must raise and leave the version exactly as it was
+                before = show_snap(txn.version)
+                for bad_call in (lambda: txn.add(name, rdataset_for(16, 0, cls=dns.rdataclass.CH if cls == dns.rdataclass.IN else dns.rdataclass.IN)),
+                                 lambda: txn.add(name), lambda: txn.delete(name, 300, 5.0), lambda: txn.replace(5, 5)):
+                    try:
+                        bad_call()
+                        fails.append(("C20/op/hostile-call-accepted", f"a malformed call before {item} did not raise"))
+                    except (ValueError, TypeError, KeyError):
+                        pass
+                    except BaseException as e:
+                        fails.append(("C20/op/hostile-call-foreign:" + type(e).__name__, f"a malformed call before {item} raised {e!r}"))
+                if show_snap(txn.version) != before:
+                    fails.append(("C20/op/state-changed-by-failed-call", f"a malformed call before {item} changed the version: {before} -> {show_snap(txn.version)}"))
+            owner = _as_text(name) if route == 3 and _text_safe(name) else name
             if f[0] in ("p", "r"):
                 ty, cov = int(f[2]), int(f[3])
                 rds = rdataset_for(ty, cov, cls=cls)
-                (txn.add if f[0] == "p" else txn.replace)(name, rds)
+                fn = txn.add if f[0] == "p" else txn.replace
+                if route == 1:
+                    fn(owner, 300, rds[0])
+                elif route == 2:
+                    fn(dns.rrset.from_rdata_list(name, 300, list(rds)))
+                else:
+                    fn(owner, rds)
                 kind = "put"
             elif f[0] == "dn":
-                txn.delete(name)
+                if route == 4 and txn.name_exists(name):
+                    txn.delete_exact(owner)
+                else:
+                    txn.delete(owner)
                 kind = "delname"
             elif f[0] == "dr":
                 ty, cov = int(f[2]), int(f[3])
+                tyarg = (dns.rdatatype.RdataType(ty), dns.rdatatype.to_text(ty), ty)[route % 3]
                 if cov:
-                    txn.delete(name, dns.rdatatype.RdataType(ty), dns.rdatatype.RdataType(cov))
+                    txn.delete(owner, tyarg, (dns.rdatatype.RdataType(cov), dns.rdatatype.to_text(cov), cov)[route % 3])
+                elif route == 4 and txn.get(name, ty) is not None:
+                    txn.delete_exact(owner, tyarg)
                 else:
-                    txn.delete(name, dns.rdatatype.RdataType(ty))
+                    txn.delete(owner, tyarg)
                 kind = "delrds"
             elif f[0] == "dx":
                 ty, cov = int(f[2]), int(f[3])
-                txn.delete(name, rdataset_for(ty, cov, alt=(f[4] == "0"), cls=cls))
+                rds = rdataset_for(ty, cov, alt=(f[4] == "0"), cls=cls)
+                if route == 1:
+                    txn.delete(owner, rds[0])
+                elif route == 2:
+                    txn.delete(dns.rrset.from_rdata_list(name, 0, list(rds)))
+                elif route == 4 and f[4] == "1" and txn.get(name, ty, cov) is not None:
+                    txn.delete_exact(owner, rds)
+                else:
+                    txn.delete(owner, rds)
                 kind = "delrdata" if f[4] == "1" else "put"
             else:
                 raise RuntimeError("bad item " + item)
